@@ -3,6 +3,7 @@ import VarmqVerif.Model.Job
 import VarmqVerif.Model.Sig
 import VarmqVerif.Model.Sig2
 import VarmqVerif.Model.Race
+import VarmqVerif.Model.Metr
 import VarmqVerif.Model.Wake
 import VarmqVerif.Model.Ack
 import VarmqVerif.Model.Pool
@@ -681,4 +682,54 @@ def describe (x : St) (r : Report) : String :=
   let look := fun (i : Nat) => match x.sites.find? (·.1 == i) with | some (_, g, n) => s!"g{g} {n}" | none => "?"
   s!"data race: site {r.siteI} ({look r.i}) and site {r.siteJ} ({look r.j}) access the same memory, at least one writes, and neither happens before the other"
 end RaceMap
+end VarmqVerif.Driver
+
+namespace VarmqVerif.Driver
+-- ---------------------------------------------------------------- Metr (metrics counters)
+namespace MetrMap
+open Metr
+
+structure St where
+  s : Metr.State := {}
+
+def isQueueObj (o : String) : Bool := o.startsWith "Queue#" || o.startsWith "PriorityQueue#"
+
+def ctrOf (obj : String) : Option Ctr :=
+  if obj == "metrics#1.submitted" then some .sub else if obj == "metrics#1.completed" then some .comp
+  else if obj == "metrics#1.successful" then some .succ else if obj == "metrics#1.failed" then some .fail else none
+
+def events (kind : String) (_ : St) (l : RawLine) : Except String (List Ev) :=
+  let g := l.g
+  match l.tag, l.f with
+  | "A", _ => .error "NA adapter-backed queue"
+  | "W", "enter" :: _ => .ok [.enter g]
+  -- a plain worker function (NewWorker) has no error result: only a panic (2) makes the job fail
+  | "W", ["exit", _, oc] => .ok [.exit g (if kind == "plain" then oc == "2" else oc != "0")]
+  | "E", [fn, obj, op, arg, res] =>
+    if obj.startsWith "metrics#" && !(obj.startsWith "metrics#1.") then .error "NA second worker"
+    else match ctrOf obj with
+      | some c =>
+        if op == "load" then .ok [.ld c (natOf res)]
+        else if op == "add" then
+          if arg != "1" then .error s!"counter changed by {arg} in {fn}"
+          else match c with
+            | .sub => .ok [.incSub g (natOf res)] | .comp => .ok [.incComp g (natOf res)]
+            | .succ => .ok [.incSucc g (natOf res)] | .fail => .ok [.incFail g (natOf res)]
+        else if op == "store" then .error "NA metrics reset"
+        else .error s!"unmodelled operation {op} on a metrics counter in {fn}"
+      | none =>
+        if isQueueObj obj && op == "ret:Enqueue" && res == "true" then .ok [.enqOk g] else .ok []
+  | _, _ => .ok []
+
+def feed (kind : String) (st : RState St) (lineNo : Nat) (l : RawLine) : RState St :=
+  match st with
+  | .ok x =>
+    match events kind x l with
+    | .error e => if e.startsWith "NA" then .na e else .rejected lineNo s!"{e} @ {l.tag} {l.g} {" ".intercalate l.f}"
+    | .ok evs =>
+      match feedAll Metr.step x.s evs with
+      | .ok s' => .ok { s := s' }
+      | .error e => .rejected lineNo s!"{e} @ {l.tag} {l.g} {" ".intercalate l.f}"
+  | r => r
+end MetrMap
 end VarmqVerif.Driver
